@@ -677,7 +677,42 @@ func parenExit(e string) string {
 	return e
 }
 
-func genScanner(repo string) string {
+type scanModel struct {
+	stateNames []string
+	trees      map[string]*tree
+	initial    string
+	begin      []string
+	ending     []string
+	single     []string
+	pairs      [][2]string
+	text       string
+}
+
+var scanCache = map[string]*scanModel{}
+
+func genScanner(repo string) string { return buildScanner(repo).text }
+
+func genTyping(repo string) string {
+	m := buildScanner(repo)
+	set := func(l []string) map[string]bool {
+		r := map[string]bool{}
+		for _, x := range l {
+			r[x] = true
+		}
+		return r
+	}
+	pairs := map[string]string{}
+	for _, p := range m.pairs {
+		pairs[p[0]] = p[1]
+	}
+	ti := inferTyping(m.stateNames, m.trees, m.initial, set(m.begin), set(m.ending), set(m.single), pairs)
+	return ti.coq()
+}
+
+func buildScanner(repo string) *scanModel {
+	if m, ok := scanCache[repo]; ok {
+		return m
+	}
 	p := loadPkg(repo, "scanner")
 	t := &scanTr{p: p, consts: map[string]int{}, states: map[string]bool{}, evts: map[string]bool{}}
 
@@ -741,6 +776,11 @@ func genScanner(repo string) string {
 		fmt.Fprintf(&b, "  | %s => %d\n", stateCtor(n), i)
 	}
 	b.WriteString("  end.\n\n")
+	b.WriteString("Definition state_of_idx (n : N) : state :=\n  match n with\n")
+	for i, n := range stateNames {
+		fmt.Fprintf(&b, "  | %d => %s\n", i, stateCtor(n))
+	}
+	fmt.Fprintf(&b, "  | _ => %s\n  end.\n\n", stateCtor(stateNames[0]))
 	b.WriteString("Definition state_name (s : state) : string :=\n  match s with\n")
 	for _, n := range stateNames {
 		fmt.Fprintf(&b, "  | %s => %s\n", stateCtor(n), coqString(n))
@@ -757,6 +797,11 @@ func genScanner(repo string) string {
 		fmt.Fprintf(&b, "  | %s => %d\n", e, i)
 	}
 	b.WriteString("  end.\n\n")
+	b.WriteString("Definition evt_of_idx (n : N) : evt :=\n  match n with\n")
+	for i, e := range evts {
+		fmt.Fprintf(&b, "  | %d => %s\n", i, e)
+	}
+	fmt.Fprintf(&b, "  | _ => %s\n  end.\n\n", evts[0])
 	b.WriteString("Inductive lexkind : Set :=\n")
 	for _, e := range lexkinds {
 		fmt.Fprintf(&b, "| L%s\n", e)
@@ -820,6 +865,7 @@ Inductive tree : Set :=
 
 `)
 	b.WriteString("Definition step_tree (s : state) : tree :=\n  match s with\n")
+	trees := map[string]*tree{}
 	for _, n := range stateNames {
 		fd := p.funcs[n]
 		st := symState{recv: fd.Type.Params.List[0].Names[0].Name, cname: fd.Type.Params.List[1].Names[0].Name, env: map[string]string{}}
@@ -827,10 +873,13 @@ Inductive tree : Set :=
 			p.bad(fd, "function %s falls off its end", n)
 			return nil
 		})
+		trees[n] = tr
 		fmt.Fprintf(&b, "  | %s =>\n    %s\n", stateCtor(n), tr.coq("    "))
 	}
 	b.WriteString("  end.\n")
-	return b.String()
+	m := &scanModel{stateNames: stateNames, trees: trees, initial: initial, begin: begin, ending: ending, single: single, pairs: pairs, text: b.String()}
+	scanCache[repo] = m
+	return m
 }
 
 // ToLexemeType: switch e { case A, B: return X ... default: panic }
